@@ -96,6 +96,8 @@ def replay(beh, flavour, clauses=None):
     out = []
     startless = False
     ret = rt.Retained()
+    in_outcome = False  # between a test's outcome and its stopTest
+    postout = False  # a tags() made there went into a ThreadsafeForwardingResult's run-level buffer (direct evidence)
     stale = False  # a ThreadsafeForwardingResult still holds buffered run-level tags right after startTestRun
     nulled = False  # some object's tag context has been replaced by None (direct evidence, see signature())
     for step, h in enumerate(hist):
@@ -104,6 +106,7 @@ def replay(beh, flavour, clauses=None):
             tests[c["t"]] = rt.make_test(flavour, c["t"])
         if c["op"] == "stopTest" and not has_start(hist[:step], c["t"]):
             startless = True
+        tfr_before = [(nd, (set(nd.obj._global_tags[0]), set(nd.obj._global_tags[1]))) for nd in nodes if nd.k == "TFR"] if c["op"] == "tags" and in_outcome else []
         try:
             rt.do_call(top, c, tests)
         except Exception as ex:  # the result API never raises on these calls
@@ -117,6 +120,12 @@ def replay(beh, flavour, clauses=None):
                             where=where, line=cls.lineno if cls else 0, exc=type(ex).__name__, startless=startless, nulled=nulled))
             return out, nodes
         nulled = nulled or any(getattr(nd.obj, "_tags", 0) is None for nd in nodes)
+        if any((set(nd.obj._global_tags[0]), set(nd.obj._global_tags[1])) != before for nd, before in tfr_before):
+            postout = True
+        if c["op"] == "add" and has_start(hist[:step], c["t"]):
+            in_outcome = True
+        elif c["op"] == "stopTest":
+            in_outcome = False
         if c["op"] == "startTestRun":
             stale = stale or any(nd.k == "TFR" and any(nd.obj._global_tags) for nd in nodes)
         mark = len(out)
@@ -199,6 +208,7 @@ def replay(beh, flavour, clauses=None):
             d["nulled"] = nulled
             d["startless"] = startless
             d["stale"] = stale
+            d["postout"] = postout
         # stop at the first step that diverges in a clause of the property being decided (a getter that raises is
         # recorded but does not end the replay: it would mask everything else on that stack)
         if [d for d in out if (clauses is None or d["clause"] in clauses) and not str(d["observed"]).startswith("raises")
@@ -242,6 +252,8 @@ def signature(beh, flavour, d):
         return "c17:stopTest-without-startTest-nulls-tag-context"
     if d.get("stale") and cl == "c17_observed" and any(st.kinds[a] == "TFR" for a in st.path(i)):
         return "c17:TFR-keeps-global-tags-across-startTestRun"
+    if d.get("postout") and cl == "c17_observed" and any(st.kinds[a] == "TFR" for a in st.path(i)):
+        return "c17:TFR-buffers-tags-after-outcome-as-run-level"
     if cl == "raised":
         test = "holder" if flavour in ("ph", "eh") else "testcase"
         return "raised:%s:%s:in=%s:%s%s" % (c["op"] + ("/" + c["kind"] if c["op"] == "add" else ""), d["exc"], d["where"], test,
@@ -287,7 +299,7 @@ def culprits(st, divs):
         if d["clause"].startswith("drift"):
             continue
         depth = len(st.path(d["node"]))
-        k = d["clause"]
+        k = (d["clause"], d.get("source"))
         if k not in best or depth > best[k][0]:
             best[k] = (depth, d)
     return [v[1] for v in best.values()] + [d for d in divs if d["clause"].startswith("drift")]
@@ -567,9 +579,11 @@ PLANS = {
                      ("rs_simFF.cfg", tc_only, SIMT), ("rs_sim.cfg", tc_only, SIMT)],
     },
     "C17": {
-        "quick": [("rs_codedTags.cfg", "TagsScoped", {}), ("rs_codedTFR.cfg", "TagsObserved", {}), ("rs_expT1.cfg", tc_ph, {}),
+        "quick": [("rs_codedTags.cfg", "TagsScoped", {}), ("rs_codedTFR.cfg", "TagsObserved", {}), ("rs_codedTFR2.cfg", "TagsObserved", {}),
+                  ("rs_codedLive.cfg", "DeliveredStable", {}), ("rs_expT1.cfg", tc_ph, {}),
                   ("rs_expT2.cfg", tc_ph, {}), ("rs_expT3.cfg", tc_ph, {}), ("rs_simSkip.cfg", tc_ph, SIMQ)],
-        "thorough": [("rs_codedTags.cfg", "TagsScoped", {}), ("rs_codedTFR.cfg", "TagsObserved", {}), ("rs_mcT.cfg", NOREPLAY, {}),
+        "thorough": [("rs_codedTags.cfg", "TagsScoped", {}), ("rs_codedTFR.cfg", "TagsObserved", {}), ("rs_codedTFR2.cfg", "TagsObserved", {}),
+                     ("rs_codedLive.cfg", "DeliveredStable", {}), ("rs_mcT.cfg", NOREPLAY, {}),
                      ("rs_expT1.cfg", tc_ph, {}), ("rs_expT2.cfg", tc_ph, {}), ("rs_expT3.cfg", tc_ph, {}), ("rs_expT4.cfg", tc_ph, {}),
                      ("rs_expT5.cfg", tc_ph, {}), ("rs_simSkip.cfg", tc_ph, SIMT), ("rs_sim.cfg", tc_ph, SIMT)],
     },
